@@ -12,54 +12,146 @@ def classify(e):
 
 
 _counter = [0]
+_handles = {}
+
+# ways of creating the object (notes/API_SURFACE.md).  SHARED: all ar members read through ONE file
+# object; NAMED: every member opens the file by name
+HOWS_SHARED = ["fileobj", "fileobj-pos", "realfile"]
+HOWS_NAMED = ["filename", "filename-pos", "subclass"]
+
+
+def pick_how(rnd, p_named):
+    """a way of creating the object; the in-memory ones (no disk traffic) are drawn more often"""
+    if rnd.random() < p_named:
+        return rnd.choice(HOWS_NAMED)
+    return rnd.choice(["fileobj", "fileobj", "fileobj", "fileobj-pos", "fileobj-pos", "realfile"])
 
 
 def open_deb(blob, how, work, path=None):
-    """-> (DebFile or None, 'ok' | 'DebError' | 'EXC:<type>', path to delete or None);
-    with how='filename' and a path the file at that path is REWRITTEN and opened again"""
+    """-> (DebFile or None, 'ok' | 'DebError' | 'EXC:<type>', path to delete or None).
+    how: fileobj      DebFile(fileobj=BytesIO)          fileobj-pos  DebFile(None, 'r', BytesIO)
+         realfile     DebFile(fileobj=open(path, 'rb')) filename     DebFile(filename=path)
+         filename-pos DebFile(path, 'r')                subclass     class X(DebFile) ... X(filename=path, mode='r')
+    with a path given the file at that path is REWRITTEN and opened again"""
     from debian.debfile import DebFile
     try:
-        if how == "filename":
+        if how in HOWS_NAMED or how == "realfile":
             if path is None:
                 _counter[0] += 1
                 path = os.path.join(work, "p%d-%d.deb" % (os.getpid(), _counter[0]))
+            old = _handles.pop(path, None)
+            if old is not None:
+                old.close()
             with open(path, "wb") as f:
                 f.write(blob)
+            if how == "realfile":
+                fh = _handles[path] = open(path, "rb")
+                return DebFile(fileobj=fh), "ok", path
+            if how == "filename-pos":
+                return DebFile(path, "r"), "ok", path
+            if how == "subclass":
+                class PackageReader(DebFile):
+                    """a user subclass that adds nothing"""
+                return PackageReader(filename=path, mode="r"), "ok", path
             return DebFile(filename=path), "ok", path
+        if how == "fileobj-pos":
+            return DebFile(None, "r", io.BytesIO(blob)), "ok", None
         return DebFile(fileobj=io.BytesIO(blob)), "ok", None
     except Exception as e:      # observation about the code under test
         return None, classify(e), path
 
 
+def finish(deb, with_exit):
+    """close() or leaving a `with` block; -> None or the exception class"""
+    try:
+        if with_exit:
+            deb.__exit__(None, None, None)
+        else:
+            deb.close()
+    except Exception as e:
+        return type(e).__name__
+    return None
+
+
 def drop(path):
     if path:
+        fh = _handles.pop(path, None)
+        if fh is not None:
+            try:
+                fh.close()
+            except Exception:
+                pass
         try:
             os.unlink(path)
         except OSError:
             pass
 
 
+def alias_of(obj, name):
+    """a deprecated camelCase alias of a method (function_deprecated_by), if this tree has one"""
+    parts = name.split("_")
+    camel = parts[0] + "".join(p.capitalize() for p in parts[1:])
+    return getattr(obj, camel, None) if camel != name else None
+
+
 def obs_has(part, path):
-    """-> (err, found): has_file and `in` must agree"""
+    """-> (err, found): has_file, `in`, __contains__ (and a camelCase alias where one exists) must agree"""
     try:
         a = part.has_file(path)
     except Exception as e:
         return classify(e), None
     try:
         b = path in part
+        c = part.__contains__(path)
+        al = alias_of(part, "has_file")
+        d = al(path) if al is not None else a
     except Exception as e:
         return "EXC:in-raises-" + type(e).__name__, None
-    if bool(a) != bool(b):
+    if not (bool(a) == bool(b) == bool(c) == bool(d)):
         return "EXC:has_file-and-in-disagree", None
     return "", bool(a)
 
 
-def obs_get(part, path, variant=0, disturb=None, rnd=None):
+N_ACCESS = 10
+TEXT_ACCESS = (6, 7, 8)
+
+
+def obs_get(part, path, variant=0, disturb=None, rnd=None, plain=None, textok=False):
     """-> (err, data): data is None for an absent file (KeyError); err 'DebError' for DebError.
     variant 0: get_content; 1: get_file().read(); 2: part[path]; 3: get_file() read in small chunks
-    with other queries (disturb()) in between; 4: two file objects on the same file read alternately"""
+    with other queries (disturb()) in between; 4: two file objects on the same file read alternately;
+    5: part.tgz().extractfile('./' + plain).read() (the TarFile itself; needs the plain name);
+    6: get_content(path, encoding='latin-1') (text result, keyword); 7: get_file(path, 'utf-8',
+    'surrogateescape').read() (text, positional); 8: get_content(path, 'ascii', 'surrogateescape');
+    9: a camelCase alias of get_content if the tree has one, else part.__getitem__(path).
+    Text results are mapped back to bytes with the same codec; they are used only when the caller
+    knows the packed content has no '\r' (TextIOWrapper translates newlines): textok"""
+    if variant in TEXT_ACCESS and not textok:
+        variant = 0
+    if variant == 5 and plain is None:
+        variant = 1
     try:
-        if variant == 1:
+        if variant == 5:
+            f = part.tgz().extractfile("./" + plain)
+            if f is None:
+                return "EXC:extractfile-None", None
+            data = f.read()
+        elif variant in TEXT_ACCESS:
+            if variant == 6:
+                text, codec = part.get_content(path, encoding="latin-1"), ("latin-1", "strict")
+            elif variant == 7:
+                f = part.get_file(path, "utf-8", "surrogateescape")
+                text, codec = f.read(), ("utf-8", "surrogateescape")
+                f.close()
+            else:
+                text, codec = part.get_content(path, "ascii", "surrogateescape"), ("ascii", "surrogateescape")
+            if not isinstance(text, str):
+                return "EXC:text-query-returned-" + type(text).__name__, None
+            data = text.encode(*codec)
+        elif variant == 9:
+            al = alias_of(part, "get_content")
+            data = al(path) if al is not None else part.__getitem__(path)
+        elif variant == 1:
             f = part.get_file(path)
             data = f.read()
             f.close()
@@ -117,13 +209,21 @@ def mutate_result(raw):
         pass
 
 
-def norm_md5(d):
-    """md5sums() result with keys/values as text (the key type -- bytes without encoding -- is diagnostic)"""
+# ways of asking for the md5sums map: None | encoding (keyword) | [encoding, errors, positional?]
+MD5_WAYS = [None, "utf-8", ["utf-8", None, True], ["latin-1", None, False], ["ascii", "surrogateescape", True],
+            ["utf-8", "surrogateescape", False]]
+
+
+def norm_md5(d, codec=None):
+    """md5sums() result with keys/values as text (the key type -- bytes without encoding -- is
+    diagnostic); keys decoded with another codec than UTF-8 are mapped back through that codec"""
     out = {}
     typed_ok = True
     for k, v in d.items():
         if isinstance(k, bytes):
             k = k.decode("utf-8", "surrogateescape")
+        elif codec is not None and codec[0] != "utf-8":
+            k = k.encode(codec[0], codec[1] or "strict").decode("utf-8", "surrogateescape")
         if isinstance(v, bytes):
             v = v.decode("ascii", "replace")
             typed_ok = False
@@ -132,20 +232,43 @@ def norm_md5(d):
 
 
 def obs_md5(ctl, encoding=None, keep=None):
+    enc, errors, positional = (encoding if isinstance(encoding, (list, tuple)) else (encoding, None, False))
     try:
-        d = ctl.md5sums(encoding=encoding) if encoding else ctl.md5sums()
+        if not enc:
+            d = ctl.md5sums()
+        elif positional:
+            d = ctl.md5sums(enc, errors) if errors else ctl.md5sums(enc)
+        else:
+            d = ctl.md5sums(encoding=enc, errors=errors) if errors else ctl.md5sums(encoding=enc)
     except Exception as e:
         return classify(e), None
     if not isinstance(d, dict):
         return "EXC:returned-" + type(d).__name__, None
-    m, typed = norm_md5(d)
-    if encoding and not all(isinstance(k, str) for k in d):
+    try:
+        m, typed = norm_md5(d, (enc, errors) if enc else None)
+    except (UnicodeError, AttributeError, TypeError) as e:
+        # the keys are not what decoding the packed names with the requested codec gives
+        return "EXC:md5sums-keys-not-in-requested-codec-" + type(e).__name__, None
+    if enc and not all(isinstance(k, str) for k in d):
         typed = False
-    if not encoding and not all(isinstance(k, bytes) for k in d):
+    if not enc and not all(isinstance(k, bytes) for k in d):
         typed = False
     if keep is not None:
         keep[:] = [d]
     return "", (m, typed)
+
+
+def obs_listing(part):
+    """-> (err, names): iterating the part, list() of it and tgz().getnames() must agree"""
+    try:
+        a = [n for n in part]
+        b = list(iter(part))
+        c = list(part.tgz().getnames())
+    except Exception as e:
+        return classify(e), None
+    if not (a == b == c):
+        return "EXC:iteration-and-getnames-disagree", None
+    return "", a
 
 
 def obs_scripts(ctl, keep=None):
